@@ -908,6 +908,15 @@ func cmdReplay(args []string) int {
 		fmt.Fprintln(os.Stderr, err)
 		return 2
 	}
+	if c.Violation.Kind == "race" {
+		// a lock-discipline violation is reproduced by the race detector (see raceConfirmed)
+		if raceConfirmed(c.Pkg, c.Property, replayReq{ID: "r", Harness: c.Harness, Model: c.Violation.Model, Picks: c.Violation.Picks, Atoms: c.Violation.Atoms}) {
+			fmt.Printf("REPRODUCED property=%s obligation=%s label=%q against the real code (go test -race -overlay in %s: DATA RACE reported)\n", c.Property, c.Obligation, c.Violation.Label, c.Pkg)
+			return 1
+		}
+		fmt.Println("not reproduced")
+		return 0
+	}
 	resp, out, err := nativeRun(c.Pkg, c.Property, []replayReq{{ID: "r", Harness: c.Harness, Model: c.Violation.Model, Picks: c.Violation.Picks, Atoms: c.Violation.Atoms, Repeat: 400}})
 	if err != nil {
 		fmt.Fprintln(os.Stderr, err, out)
